@@ -355,6 +355,19 @@ Section Prims.
                    end
       | _ => stuck f s
       end
+    (* ---- range arguments: VCtor "Range" [start bound; end bound], bounds as core::ops::Bound ---- *)
+    else if is ".start_bound" || is ".end_bound" then
+      match args with
+      | [r] => match ctor_is "Range" r with
+               | Some [sb; eb] => k (if is ".start_bound" then sb else eb) s
+               | _ => stuck f s
+               end
+      | _ => stuck f s
+      end
+    else if is "NonNull::from" || is ".into_iter" then
+      match args with [x] => k x s | _ => stuck f s end
+    else if is "NonNull::dangling" then
+      match args with [] => k (eptr_val PDangling) s | _ => stuck f s end
     (* ---- address order of two element pointers (Eval.v sends pointer comparisons here) ---- *)
     else if is "ptr:lt" || is "ptr:ge" then
       match args with
